@@ -66,7 +66,7 @@ def replica_answers(tbl, va, ua, vb, ub):
 
 def run(chk):
     binary, tbl = qtylib.session()
-    proved = chk.prove("Props.C11", THEOREMS, ["theories/Props/C11.vo", "theories/Qty/Prelude.vo"],
+    proved = chk.prove("Props.C11", THEOREMS, ["theories/Props/C11.vo", "theories/Qty/Prelude.vo", "theories/Props/C11F.vo", "theories/Qty/PreludeF.vo"],
                        extra_obligations=["Qty.Prelude.prelude_wf", "Qty.Prelude.prelude_exact_int",
                                           "Qty.Prelude.prelude_exact_pos"])
     chk.trusted += [
